@@ -262,7 +262,7 @@ func H_Estaking_Distribution_BeginBlock_EdenUsdc() { distrBeginBlock(1, true, fa
 //vrf:summary (cosmossdk.io/collections.Item[github.com/cosmos/cosmos-sdk/x/distribution/types.FeePool]).Get[github.com/cosmos/cosmos-sdk/x/distribution/types.FeePool] => sumFeePoolGet
 //vrf:summary (cosmossdk.io/collections.Item[github.com/cosmos/cosmos-sdk/x/distribution/types.FeePool]).Set[github.com/cosmos/cosmos-sdk/x/distribution/types.FeePool] => sumFeePoolSet
 //vrf:cover done allocated
-//vrf:bound as the quick variants with 0..2 SDK validators and all three balances (uusdc, ueden, uedenb) symbolic at once
+//vrf:bound as the quick EdenB variant with 0..2 SDK validators
 //vrf:max-paths 40000
 //vrf:tier thorough
-func H_Estaking_Distribution_BeginBlock_All() { distrBeginBlock(2, true, true) }
+func H_Estaking_Distribution_BeginBlock_EdenB_TwoValidators() { distrBeginBlock(2, false, true) }
